@@ -303,8 +303,25 @@ func c11prop(r *simkit.Run) {
 	doRequest := func(s *session) {
 		req := &http.Request{Method: "GET", URL: &url.URL{Path: "/"}, Header: http.Header{}, Host: "client", RemoteAddr: "10.0.0.1:1"}
 		req = req.WithContext(context.Background())
+		// the browser sends other cookies too: before or after the affinity cookie, some with names that differ from
+		// it only in case or by a suffix (cookie names are case-sensitive)
+		var before, after []*http.Cookie
+		for k, n := 0, rapid.IntRange(0, 2).Draw(rt, "other-cookies"); k < n; k++ {
+			c := &http.Cookie{Name: rapid.SampledFrom([]string{"AFF", "Aff", "aff2", "xaff", "session"}).Draw(rt, "other-cookie"), Value: rapid.SampledFrom([]string{"42", "http://nowhere", "zzz"}).Draw(rt, "other-value")}
+			if rapid.Bool().Draw(rt, "other-first") {
+				before = append(before, c)
+			} else {
+				after = append(after, c)
+			}
+		}
+		for _, c := range before {
+			req.AddCookie(c)
+		}
 		if s.has {
 			req.AddCookie(&http.Cookie{Name: "aff", Value: s.cookie})
+		}
+		for _, c := range after {
+			req.AddCookie(c)
 		}
 		rec := simkit.NewRecorder()
 		reached = ""
